@@ -13,6 +13,7 @@ import Preflate.Proofs.Spec
 import Preflate.Proofs.HuffTree
 import Preflate.Proofs.ChainBounds
 import Preflate.Proofs.Estimator
+import Preflate.Proofs.Estimator4k
 import Preflate.Proofs.Expands
 import Preflate.Props.C08
 import Preflate.Props.C10
@@ -53,6 +54,17 @@ theorem chain_positions_in_u16_partial (p : Params) (hh : p.hashAlg ≠ 0) (lens
     (h4k : p.addPolicy = 3 → Chains.NoRefAt4k 0 lens) :
     Chains.RunSafe p (-8) 0 lens :=
   Proofs.chain_positions_in_u16_partial p hh lens hl h4k
+
+/-- the same without the side condition, for the add policy the estimator itself chooses: over what
+    the parser returns (`Chains.streamLens`: the token lengths the predictor commits, stored bytes one
+    by one) and any hash algorithm, `estimate_add_policy` answers the 4 KiB-boundary policy only when
+    no reference starts in the last three positions of a 4 KiB page (`addPolicy_4k`), which is exactly
+    what `chain_positions_in_u16_partial` assumed -/
+theorem chain_positions_in_u16_estimated (plain : Array Nat) (blocks : List Block)
+    (hv : StreamValid plain blocks) (p : Params) (hh : p.hashAlg ≠ 0) (pol lim : Nat)
+    (he : Est.addPolicy blocks = .ok (pol, lim)) (hp : p.addPolicy = pol) :
+    Chains.RunSafe p (-8) 0 (Chains.streamLens blocks) :=
+  Proofs.chain_positions_in_u16_estimated plain blocks hv p hh pol lim he hp
 
 /-- the front part of the parameter estimator (extract_preflate_info, strategy / Huffman strategy,
     window bits, block size, estimate_add_policy — Model/Estimator.lean, compared with the code by the
